@@ -5,7 +5,7 @@ from contracts import concurrent_exception as _ce   # noqa: F401
 
 NS = ["Notification", "Interrupt.parked_or_scheduled"]
 DEAD_NEW = "forall_new(Interrupt, lambda i: i.sub is None and (i._revoked or not i.scheduled))"
-default_scope(NS + ["Task", "Done", "NotDone", "coroutine", "Scope", "Condition", "Flag", "InverseFlag", "CancelTask"])
+default_scope(NS + ["Task", "Done", "NotDone", "coroutine", "Scope", "Condition", "Flag", "InverseFlag", "CancelTask", "InterruptScope"])
 
 
 model("Concurrent", module="usim._primitives.concurrent_exception",
@@ -16,7 +16,9 @@ model("Scope", module="usim._primitives.context",
               "_body_done": REF("Flag"), "_interruptable": BOOL, "_activity": OPT(ANY), "_cancel_self": REF("CancelScope")},
       final=["_body_done", "_cancel_self"])
 model("InterruptScope", module="usim._primitives.context",
-      fields={"_notification": REF("Notification"), "_interrupt": REF("CancelScope")}, final=["_notification", "_interrupt"])
+      fields={"_notification": REF("Notification"), "_interrupt": REF("CancelScope")}, final=["_notification", "_interrupt"],
+      ghost={"armed": BOOL},        # between the subscription in __aenter__ and its removal in _disable_interrupts
+      ghost_defaults={"armed": False})
 
 # ---------------------------------------------------------------- C05: what a scope raises
 spec_function("promoted", ["e"], "isinstance(e, SystemExit) or isinstance(e, KeyboardInterrupt) or isinstance(e, AssertionError)")
@@ -30,8 +32,7 @@ spec_rec("kept_count", [("F", LIST(REF("BaseException"))), ("n", INT)], INT,
 spec_rec("kept_elem", [("F", LIST(REF("BaseException"))), ("n", INT), ("j", INT)], REF("BaseException"),
          "ite(n <= 0, null, ite(not suppressed(F[n - 1]) and j == kept_count(F, n - 1), F[n - 1], kept_elem(F, n - 1, j)))")
 
-assume_contract("usim._primitives.concurrent_exception.Concurrent.__new__")
-contract("usim._primitives.concurrent_exception.Concurrent.__new__",
+contract("usim._primitives.concurrent_exception.Concurrent.__new__", assumed=True,
          params={"cls": "class:Concurrent", "children": LIST(ANY)}, returns=REF("Concurrent"),
          ensures=["fresh_obj(result)", "is_a(result, Concurrent)"],
          modifies=[], check_frame=False, no_invariants=True,
@@ -166,3 +167,241 @@ contract("usim._primitives.context.Scope.__child_finished__", allocates=False,
          inv_scope=NS + ["Scope", "Task.in_parent_list", "Task.reported_is_linked"],
          note="called from the task wrapper's tail: the Task invariants about `reported` are re-established by the wrapper before it ends",
          props=["C04", "C05", "C06", "C03"])
+
+# rely: completion is irreversible (Done._value is only ever set to True: scan W1 + Done.__set_done__ contract)
+rely("Done", [], "self._value", ensures="self._value", why="Done._value is written only by __set_done__, to True")
+rely("Task", ["_result"], "self._result is not None", why="write-once outcome: every assignment to Task._result is guarded by `_result is None`")
+rely("Task", [], "self.reported", ensures="self.reported", why="ghost: set once by __child_finished__")
+rely("Scope", [], "not self._interruptable", ensures="not self._interruptable", why="_interruptable is only ever set to False")
+
+contract("usim._primitives.context.Scope.__init__",
+         params={"self": REF("Scope")},
+         ensures=["len(self._children) == 0 and len(self._volatile_children) == 0 and len(self._child_failures) == 0",
+                  "self._interruptable", "self._activity is None", "not self._body_done._value",
+                  "self._cancel_self.subject is self and not self._cancel_self.scheduled and not self._cancel_self._revoked",
+                  "self._cancel_self.sub is None and fresh_obj(self._cancel_self) and fresh_obj(self._body_done)",
+                  "len(self._body_done._waiting) == 0 and self._body_done._inverse._event is self._body_done "
+                  "and len(self._body_done._inverse._waiting) == 0 and fresh_obj(self._body_done._inverse)",
+                  'only_new_changed("CancelScope.subject", "Flag._value", "Flag._inverse", "InverseFlag._event", "Notification._waiting", '
+                  '                 "Interrupt.token", "Interrupt.scheduled", "Interrupt._revoked")'],
+         modifies=["Scope._children@self", "Scope._volatile_children@self", "Scope._child_failures@self", "Scope._body_done@self",
+                   "Scope._interruptable@self", "Scope._activity@self", "Scope._cancel_self@self", "CancelScope.subject", "Flag._value",
+                   "Flag._inverse", "InverseFlag._event", "Notification._waiting", "Interrupt.token", "Interrupt.scheduled", "Interrupt._revoked"],
+         check_frame=False,
+         props=["C04", "C05"])
+
+contract("usim._primitives.context.Scope.do",
+         params={"self": REF("Scope"), "payload": ANY, "after": OPT(REAL), "at": OPT(REAL), "volatile": BOOL}, returns=REF("Task"),
+         requires=["self._activity is not None",      # usage: tasks are spawned inside the `async with` block
+                   "after is None or at is None", "after is None or after >= 0", "at is None or at >= loop.time"],
+         asserts={1: "usage", 2: "usage", 3: "usage"},
+         # a scope that has ended refuses: the payload is discarded and nothing is registered (C04)
+         raises={"ScopeClosed": dict(when="not self._interruptable",
+                                     ensures=["self._children == old(self._children)", "self._volatile_children == old(self._volatile_children)",
+                                              "loop._pending == old(loop._pending)"])},
+         ensures=["fresh_obj(result) and result.parent is self and result.__volatile__ == volatile and result._result is None",
+                  "result.__runner__.state == 0 and not result._done._value and result.linked and not result.reported",
+                  # registered at the end of the right list, its first activation queued for the current time step
+                  "implies(volatile, self._volatile_children == old(self._volatile_children) + [result] and self._children == old(self._children))",
+                  "implies(not volatile, self._children == old(self._children) + [result] and self._volatile_children == old(self._volatile_children))",
+                  "loop._pending == old(loop._pending) + [Activation(result.__runner__, None)]",
+                  "self._child_failures == old(self._child_failures) and self._interruptable",
+                  'only_new_changed("Task.payload")',
+                  'only_new_changed("Task.parent")',
+                  'only_new_changed("Task.__volatile__")',
+                  'only_new_changed("Task._result")',
+                  'only_new_changed("Task._cancellations")',
+                  'only_new_changed("Task._done")',
+                  'only_new_changed("Task.__runner__")',
+                  'only_new_changed("Task.linked")',
+                  'only_new_changed("Task.reported")',
+                  'only_new_changed("coroutine.task")',
+                  'only_new_changed("coroutine.state")',
+                  'only_new_changed("Done._task")',
+                  'only_new_changed("Done._value")',
+                  'only_new_changed("Done._inverse")',
+                  'only_new_changed("NotDone._done")',
+                  'only_new_changed("Notification._waiting")',
+                  'only_new_changed("Notification.lock")',
+                  'only_new_changed("Notification.queue")'],
+         ghost_exit=["result.linked = True"],
+         modifies=["Scope._children@self", "Scope._volatile_children@self", "Loop._pending@loop", "Task.cpos", "Task.vpos",
+                   "Task.payload", "Task.parent", "Task.__volatile__", "Task._result", "Task._cancellations", "Task._done", "Task.__runner__",
+                   "Task.linked", "Task.reported", "coroutine.task", "coroutine.state", "Done._task", "Done._value", "Done._inverse",
+                   "NotDone._done", "Notification._waiting", "Notification.lock", "Notification.queue"],
+         props=["C04", "C01", "C06"])
+
+# ---------------------------------------------------------------- interrupts of a scope
+invariant("InterruptScope", "wellformed",
+          "self._notification is not None and self._interrupt is not None and self._interrupt.subject is self "
+          "and self._interrupt is not self._cancel_self", props=["C07", "C03"])
+# outside [subscription in __aenter__, _disable_interrupts] the until-interrupt is dead (C03a / C07 'no further effect')
+invariant("InterruptScope", "interrupt_dead_outside",
+          "implies(not self.armed, self._interrupt.sub is None and (self._interrupt._revoked or not self._interrupt.scheduled))",
+          props=["C07", "C03"])
+# while armed the interrupt is subscribed where the notification keeps its subscribers, addressed to the owning activity
+invariant("InterruptScope", "subscribed_while_armed",
+          "implies(self.armed, self._activity is not None and self._interruptable and "
+          "  ite(isinstance(self._notification, Moment), "
+          "      (self._interrupt.sub is None and not self._interrupt.scheduled) or "
+          "      (self._interrupt.sub is cast(self._notification, Moment)._transition and self._interrupt.target is self._activity), "
+          "      self._interrupt.sub is self._notification and self._interrupt.target is self._activity))", props=["C07", "C03"])
+
+contract("usim._primitives.context.Scope._disable_interrupts",
+         params={"self": REF("Scope")},
+         ensures=["not self._interruptable", "self._cancel_self._revoked"],
+         modifies=["Scope._interruptable@self", "Interrupt._revoked@self._cancel_self"],
+         inline=True, no_invariants=True, props=["C03", "C04", "C07"])
+
+contract("usim._primitives.context.InterruptScope._disable_interrupts",
+         params={"self": REF("InterruptScope")},
+         requires=["self.armed"],
+         # both signals of the scope are dead afterwards: the notification has no further effect on the activity (C07)
+         ensures=["not self._interruptable", "self._cancel_self._revoked",
+                  "self._interrupt.sub is None and (self._interrupt._revoked or not self._interrupt.scheduled)", "not self.armed"],
+         ghost_exit=["self.armed = False"],
+         modifies=["Scope._interruptable@self", "InterruptScope.armed@self", "Interrupt._revoked", "Interrupt.sub@self._interrupt",
+                   "Notification._waiting", "Interrupt.pos"],
+         props=["C03", "C07"])
+
+contract("usim._primitives.context.Scope.__aenter__",
+         params={"self": REF("Scope")}, returns=REF("Scope"), suspends=(0, 0),
+         requires=["loop.activity is me"],
+         raises={"RuntimeError": dict(when="self._activity is not None", suspended=False, ensures=["self._activity is old(self._activity)"])},
+         ensures=["result is self", "self._activity is me"],
+         modifies=["Scope._activity@self"], props=["C04"])
+
+contract("usim._primitives.context.InterruptScope.__init__",
+         params={"self": REF("InterruptScope"), "notification": REF("Notification")},
+         ensures=["self._notification is notification", "self._interrupt.subject is self",
+                  "not self._interrupt.scheduled and not self._interrupt._revoked and self._interrupt.sub is None",
+                  "self._activity is None and self._interruptable", "fresh_obj(self._interrupt)",
+                  "len(self._children) == 0 and len(self._volatile_children) == 0 and len(self._child_failures) == 0",
+                  "self._cancel_self.subject is self and not self._cancel_self.scheduled and not self._cancel_self._revoked "
+                  "and self._cancel_self.sub is None and fresh_obj(self._cancel_self) and fresh_obj(self._body_done) and not self._body_done._value",
+                  "len(self._body_done._waiting) == 0 and self._body_done._inverse._event is self._body_done "
+                  "and len(self._body_done._inverse._waiting) == 0 and fresh_obj(self._body_done._inverse)",
+                  'only_new_changed("CancelScope.subject", "Flag._value", "Flag._inverse", "InverseFlag._event", "Notification._waiting", '
+                  '                 "Interrupt.token", "Interrupt.scheduled", "Interrupt._revoked")'],
+         modifies=["Scope._children@self", "Scope._volatile_children@self", "Scope._child_failures@self", "Scope._body_done@self",
+                   "Scope._interruptable@self", "Scope._activity@self", "Scope._cancel_self@self", "CancelScope.subject", "Flag._value",
+                   "Flag._inverse", "InverseFlag._event", "Notification._waiting", "Interrupt.token", "Interrupt.scheduled", "Interrupt._revoked",
+                   "InterruptScope._notification@self", "InterruptScope._interrupt@self"],
+         check_frame=False, props=["C07"])
+
+contract("usim._primitives.context.InterruptScope.__aenter__",
+         params={"self": REF("InterruptScope")}, returns=REF("InterruptScope"), suspends=(0, 0),
+         requires=["loop.activity is me", "self._interruptable", "not self.armed", "not self._interrupt._revoked"],
+         raises={"RuntimeError": dict(when="self._activity is not None", suspended=False, ensures=["self._activity is old(self._activity)"])},
+         # subscribed: the interrupt is parked on the notification, or already on its way if the notification holds now (C07)
+         ensures=["result is self", "self._activity is me", "self.armed",
+                  "self._interrupt.target is me or (self._interrupt.sub is None and not self._interrupt.scheduled)"],
+         ghost_exit=["self.armed = True"],
+         modifies=["Scope._activity@self", "InterruptScope.armed@self", "Notification._waiting", "Loop._pending@loop", "Interrupt.sub@self._interrupt", "Interrupt.target@self._interrupt",
+                   "Interrupt.pos", "Interrupt.scheduled@self._interrupt", "Interrupt.due@self._interrupt", "Interrupt.immediate@self._interrupt",
+                   "After._scheduled", "After.trigger_due", "WaitQueue.qlen@loop._activations", "WaitQueue.qitems@loop._activations"],
+         props=["C07", "C03"])
+
+contract("usim._primitives.context.until",
+         params={"notification": REF("Notification")}, returns=REF("InterruptScope"),
+         ensures=["fresh_obj(result) and result._notification is notification and result._activity is None and result._interruptable",
+                  'only_new_changed("CancelScope.subject", "Flag._value", "Flag._inverse", "InverseFlag._event", "Notification._waiting", '
+                  '                 "Interrupt.token", "Interrupt.scheduled", "Interrupt._revoked", "Scope._children", "Scope._interruptable")'],
+         modifies=["Scope._children", "Scope._volatile_children", "Scope._child_failures", "Scope._body_done",
+                   "Scope._interruptable", "Scope._activity", "Scope._cancel_self", "CancelScope.subject", "Flag._value",
+                   "Flag._inverse", "InverseFlag._event", "Notification._waiting", "Interrupt.token", "Interrupt.scheduled", "Interrupt._revoked",
+                   "InterruptScope._notification", "InterruptScope._interrupt"],
+         check_frame=False, props=["C07"])
+
+# ---------------------------------------------------------------- shutting a scope down (C04)
+# a task whose outcome is stored but which is not done yet is a started runner that is being closed further up the stack
+invariant("Task", "result_without_done_is_closing",
+          "implies(self._result is not None and not self._done._value, self.__runner__.state == 1 and not self.reported)", props=["C04", "C06"])
+# once a scope has shut down nothing new is registered (do() refuses): the child lists only shrink
+rely("Scope", [], "not self._interruptable",
+     ensures="forall(self._children, lambda t: exists(old(self._children), lambda u: u is t)) and "
+             "forall(self._volatile_children, lambda t: exists(old(self._volatile_children), lambda u: u is t))",
+     why="Scope.do raises ScopeClosed when not _interruptable; __child_finished__ only removes")
+rely("coroutine", [], "True", ensures="self.state >= old(self.state)", why="a coroutine never returns to an earlier state of its life cycle")
+# "finished": the outcome is stored for good (write-once); by Task.result_without_done_is_closing such a task is done, or it
+# is a started runner that is being closed further up the call stack (re-entrant close)
+DONE_OR_CLOSING = "(t._result is not None)"
+
+contract("usim._primitives.context.Scope._close_children",
+         params={"self": REF("Scope")},
+         requires=["not self._interruptable"],
+         # every non-volatile child is done afterwards (closed now if it was still running)
+         ensures=["forall(self._children, lambda t: %s)" % DONE_OR_CLOSING, "not self._interruptable"],
+         loop_invariants={"for#1": [
+             "not self._interruptable",
+             "forall(int, lambda j: implies(0 <= j and j < _i, %s))" % DONE_OR_CLOSING.replace("t.", "at_loop_entry(self._children)[j]."),
+             "forall(self._children, lambda t: exists(at_loop_entry(self._children), lambda u: u is t))"]},
+         modifies=[], check_frame=False, havoc_all=True,
+         props=["C04"])
+
+contract("usim._primitives.context.Scope._close_volatile",
+         params={"self": REF("Scope")},
+         requires=["not self._interruptable"],
+         ensures=["forall(self._volatile_children, lambda t: %s)" % DONE_OR_CLOSING, "not self._interruptable"],
+         loop_invariants={"for#1": [
+             "not self._interruptable",
+             "forall(int, lambda j: implies(0 <= j and j < _i, %s))" % DONE_OR_CLOSING.replace("t.", "at_loop_entry(self._volatile_children)[j]."),
+             "forall(self._volatile_children, lambda t: exists(at_loop_entry(self._volatile_children), lambda u: u is t))"]},
+         modifies=[], check_frame=False, havoc_all=True,
+         props=["C04"])
+
+rely("InterruptScope", [], "not self.armed and self._activity is not None", ensures="not self.armed",
+     why="only __aenter__ arms a scope, and it refuses a scope that has been entered before")
+rely("Scope", ["_activity"], "self._activity is not None", why="_activity is assigned once, in __aenter__")
+rely("InterruptScope", [], "self.armed and self._activity is me", ensures="self.armed",
+     why="only the owning activity's _disable_interrupts disarms its scope")
+FINISHED = "forall(self._children, lambda t: t._result is not None) and forall(self._volatile_children, lambda t: t._result is not None)"
+
+contract("usim._primitives.context.Scope._close_scope",
+         params={"self": REF("Scope")},
+         requires=["implies(isinstance(self, InterruptScope), cast(self, InterruptScope).armed)", "self._activity is not None"],
+         # order: deaf first (no new children, own signals dead), then the non-volatile, then the volatile children
+         ensures=["not self._interruptable", "self._cancel_self._revoked", FINISHED,
+                  "implies(isinstance(self, InterruptScope), not cast(self, InterruptScope).armed)"],
+         modifies=[], check_frame=False, havoc_all=True,
+         props=["C04", "C03", "C07"])
+
+contract("usim._primitives.context.Scope._await_children",
+         params={"self": REF("Scope")},
+         requires=["loop.activity is me"],
+         suspends=(0, None),
+         # graceful shutdown: returns only when no non-volatile child is left, however late it was spawned
+         ensures=["len(self._children) == 0", "loop.activity is me"],
+         on_signal=["loop.activity is me"], on_close=[],
+         on_exit=[DEAD_NEW],
+         loop_invariants={"while#1": ["loop.activity is me"], "for#1": ["loop.activity is me"]},
+         props=["C04", "C20"])
+
+contract("usim._primitives.context.Scope.__await__",
+         params={"self": REF("Scope")}, returns=BOOL, suspends=(1, None),
+         requires=["loop.activity is me"],
+         ensures=["self._body_done._value", "loop.activity is me"],
+         on_signal=["loop.activity is me"], on_close=[], on_exit=[DEAD_NEW],
+         props=["C20"])
+
+contract("usim._primitives.context.Scope.__aexit__",
+         params={"self": REF("Scope"), "exc_type": OPT(ANY), "exc_val": OPT(REF("BaseException")), "exc_tb": OPT(ANY)}, returns=BOOL,
+         requires=["loop.activity is me", "self._activity is me", "self._interruptable",
+                   "implies(isinstance(self, InterruptScope), cast(self, InterruptScope).armed)",
+                   "implies(exc_type is None, exc_val is None)", "implies(exc_val is not None, typeof(exc_val) is exc_type)",
+                   "implies(exc_type is not None, exc_val is not None)",
+                   "not isinstance(self, EnvironmentScope)"],
+         suspends=(0, None),
+         # C04: however the block is left, the scope is shut down and every task started in it has its final outcome;
+         # own signals are dead (C03a); on the graceful path every non-volatile child finished by itself
+         on_exit=[DEAD_NEW, "not self._interruptable", "self._cancel_self._revoked", FINISHED,
+                  "implies(isinstance(self, InterruptScope), not cast(self, InterruptScope).armed)"],
+         ensures=[
+             # C20: leaving a block normally always yields to the other activities first
+             "implies(exc_type is None, True)",
+             # returns True (swallow) exactly for the scope's own signals when no child failure has to be reported
+             "implies(exc_type is not None, result == (exc_val is self._cancel_self or "
+             "        (isinstance(self, InterruptScope) and exc_val is cast(self, InterruptScope)._interrupt)))"],
+         raises={"BaseException": dict(ensures=["True"])},
+         on_signal=[], on_close=[],
+         props=["C04", "C05", "C07", "C03", "C20"])
